@@ -1,5 +1,9 @@
 (* Property C03 — Algorithms traverse exactly the stored edges, with their current weights.
-   Only pinned statements; proofs in Proofs/AdjOk.v (on top of the WF invariant). *)
+   Only pinned statements; proofs in Proofs/AdjOk.v (on top of the WF invariant) and, for the
+   "Consequently ..." clause (distances, closeness and betweenness are functions of the node
+   list, the kind and the multiset of stored edges, whatever history produced the graph),
+   in Proofs/BrandesWF.v and Proofs/EdgeStoreOnly.v, on top of the end-to-end theorems of
+   C04 (Proofs/DijkstraWF.v), C06 (Proofs/ClosenessStateOk.v) and C05 (Proofs/BrandesWF.v). *)
 From Coq Require Import List Bool ZArith QArith Lia Permutation.
 From GV Require Import Base.Outcome Base.AMap Model.GState Model.Creation Model.Query Model.Cent Model.Brandes Model.Closeness Model.Dijkstra.
 From GV Require Import Spec.AGraph Spec.History Spec.ShortestPathDef Spec.EdgeStoreGraph Spec.EdgeStoreAdj.
